@@ -650,6 +650,11 @@ class Interp:
         what, mval = mres
         if what == "atom":
             check_atom(self.o, rres, mval, self.ctx("result"))
+            # the returned Atom is the caller's: editing its coordinates in place must leave the
+            # container untouched (verified by the comparison of every slot after this step)
+            if isinstance(getattr(rres, "coord", None), np.ndarray) and rres.coord.flags.writeable:
+                rres.coord += np.float32(5.5)
+                self.o.label("returned_atom_edited_in_place")
             return
         self.put(dst, rres, mval, s.prov)
         # bonds keep connecting the same atoms: judged on the real objects alone
@@ -924,6 +929,16 @@ class Interp:
             length = mc.n + 1
         values = [value_for(name, _cyc(vals, i)) for i in range(length)]
         arr = np.array(values, dtype=DTYPE[name])
+        old_dtype = real.get_annotation(name).dtype if name in mc.cats else None
+        if len(vals) % 2 == 0 and length > 0:
+            # the same values in the narrowest dtype that holds them (e.g. '<U2', int8): documented is
+            # that "a compatible dtype is chosen, that is able to represent the old and new array values"
+            narrow = np.array(values)
+            if narrow.dtype.kind in "iu" and all(-128 <= int(v) <= 127 for v in values):
+                narrow = narrow.astype(np.int8)
+            if narrow.dtype.kind == arr.dtype.kind and narrow.dtype.itemsize <= arr.dtype.itemsize and narrow.tolist() == arr.tolist():
+                arr = narrow
+                self.o.label("annot:narrow_dtype_array")
         if via_attr and name in mc.cats:
             self.o.label("annot:attribute_assignment")
 
@@ -937,6 +952,13 @@ class Interp:
                 real.set_annotation(name, arr)
 
         self.attempt(lambda: mc.set_annotation(name, KIND[name], values), rcall)
+        if old_dtype is not None and length == mc.n and name in real.get_annotation_categories():
+            new_dtype = real.get_annotation(name).dtype
+            self.o.check(
+                np.can_cast(old_dtype, new_dtype, "safe"),
+                "annotation_dtype_keeps_old_values_representable",
+                lambda: self.ctx(f"annotation {name!r}: dtype {old_dtype} became {new_dtype} after assigning a {arr.dtype} array"),
+            )
         self.dirty.add(slot % NSLOTS)
 
     def op_annot_elem(self, slot, cat, raw, v, via_attr):
